@@ -66,7 +66,7 @@ var rdfPlainIRIs = []string{"ex:p", "http://example.org/a", "urn:x:1", "http://e
 var rdfBlankLabels = []string{"b0", "b1", "x", "a.b", "x-y", "0", "_u", "é", "a:b", "b·c", "c14n0", "a", "z", "g", "B_1.2-3", "a_:b"}
 
 var rdfLitAtoms = []string{"a", "b", "Z", "0", " ", "é", "😀", "\t", `\t`, `\n`, `\r`, `\"`, `\\`, `\b`, `\f`, `\'`, rdfU + "00e9", rdfU + "0041", rdfU + "000A",
-	`\U0001F600`, "'", "<", ">", "#", ".", "@", "^", "_:", " ", "\x00", "http://x"}
+	`\U0001F600`, rdfU + "9fa5", rdfU + "AC00", rdfU + "fffd", rdfU + "8000", `\U00009fa5`, `\U0010FFFD`, "'", "<", ">", "#", ".", "@", "^", "_:", " ", "\x00", "http://x"}
 
 var rdfRawChars = []string{"a", "b", " ", "é", "😀", "\t", "\n", "\r", "\"", "\\", "\b", "\f", "'", "\u0080", " ", "\x00", "<", "#", "."}
 
